@@ -125,6 +125,20 @@ pub unsafe fn stub_ptr_copy<T>(src: *const T, dst: *mut T, count: usize) {
 /// symbolic slot index and one page write costs > 20 GB in CBMC.
 pub static mut FIND_FOUND: bool = false;
 pub static mut FIND_POS: usize = 0;
+/// Optional queue of answers for operations that search more than once (e.g. BTree::update's grow path: search,
+/// then insert_cell's own search after the delete). Entry i is used by the i-th call; when the queue is exhausted
+/// (FIND_QN calls made) the single FIND_FOUND / FIND_POS answer is used.
+pub static mut FIND_Q: [(bool, usize); 4] = [(false, 0); 4];
+pub static mut FIND_QN: usize = 0;
+pub static mut FIND_CALLS: usize = 0;
 pub fn stub_find_key_simd(_page: &[u8], _key: &[u8], _n: usize) -> turdb::btree::SearchResult {
-    unsafe { if FIND_FOUND { turdb::btree::SearchResult::Found(FIND_POS) } else { turdb::btree::SearchResult::NotFound(FIND_POS) } }
+    unsafe {
+        let c = FIND_CALLS;
+        FIND_CALLS += 1;
+        let (f, p) = if c < FIND_QN && c < 4 { FIND_Q[c] } else { (FIND_FOUND, FIND_POS) };
+        if f { turdb::btree::SearchResult::Found(p) } else { turdb::btree::SearchResult::NotFound(p) }
+    }
+}
+pub fn find_script(q: &[(bool, usize)]) {
+    unsafe { FIND_CALLS = 0; FIND_QN = q.len(); let mut i = 0; while i < q.len() && i < 4 { FIND_Q[i] = q[i]; i += 1; } }
 }
